@@ -606,7 +606,7 @@ func init() {
 				b = 2
 			}
 			for _, kind := range []string{"fin", "rst"} {
-				for _, where := range []string{"resp-before", "resp-mid", "req-mid", "req-after"} {
+				for _, where := range []string{"resp-before", "resp-mid", "resp-headend", "resp-body", "req-mid", "req-after"} {
 					ps = append(ps, Param{Name: kind + "-" + where, Bound: b, S: map[string]string{"kind": kind, "where": where}})
 				}
 			}
@@ -656,6 +656,11 @@ func init() {
 					w.Net.Arm(0, vnet.Cut{Kind: kind, Dir: vnet.S2C, After: s2c})
 				case "resp-mid":
 					w.Net.Arm(0, vnet.Cut{Kind: kind, Dir: vnet.S2C, After: s2c + 40})
+				case "resp-headend": // the status line and headers arrive complete, not one byte of the body
+					he := strings.Index(string(lk.Wire(vnet.S2C)), "\r\n\r\n") + 4
+					w.Net.Arm(0, vnet.Cut{Kind: kind, Dir: vnet.S2C, After: s2c + he})
+				case "resp-body": // inside the body (the two responses have the same length)
+					w.Net.Arm(0, vnet.Cut{Kind: kind, Dir: vnet.S2C, After: s2c + s2c - 10})
 				case "req-mid":
 					w.Net.Arm(0, vnet.Cut{Kind: kind, Dir: vnet.C2S, After: c2s + 60})
 				case "req-after":
